@@ -270,6 +270,10 @@ func (a *AddExp) Eval(env Env) (Exp, bool) {
 			// 先行する項があった場合にのみ演算子を追加します
 			if len(newTerms) > 0 { // 最初の項でない場合に演算子を追加します
 				newOps = append(newOps, op)
+			} else if op == "-" {
+				// 最初の非定数項が引かれる場合 (例: "1 - A")、先頭に 0 を置いて符号を保ちます
+				newTerms = append(newTerms, NewNumberExp(ImmExp{BaseExp: a.BaseExp}, 0))
+				newOps = append(newOps, op)
 			}
 			newTerms = append(newTerms, evalTail)
 		}
